@@ -598,3 +598,34 @@ def explore_part(mod, K, depth, index):
     _FILTER = mk_filter() if depth else None
     return explore(mod, K)
 _FILTER = None
+
+# ------------------------------------------------------------------ under-constrained run of an arbitrary function from its entry
+def uc_run(mod, fname, args, overrides=None, max_paths=4000, track_uninit=False, nomemo=('basic_ios', 'basic_istream', 'ios_base', 'basic_ifstream', 'istream')):
+    """all paths of function `fname` with the given argument values; every call to a function other than `fname` is an event unless overridden"""
+    ex = UCExec(mod, 0); ex.hdr = None; ex.scc = set(); ex.track_uninit = track_uninit; ex.max_paths = max_paths
+    f = mod.funcs[fname]
+    dm = demangle(set(mod.decls) | set(mod.funcs))
+    for d in list(mod.decls) + [x for x in mod.funcs if x != fname]:
+        if d.startswith('llvm.') or d in LIBM: continue
+        if d in ex.ext and d not in mod.funcs and d in DEFAULT_EXT and not d.startswith('_Z'): continue
+        dn = dm.get(d, d)
+        memo = (d.startswith(PURE_PREFIXES) and not any(k in dn for k in nomemo)) or (dn.startswith(('std::vector<', 'std::array<')) and any(k in dn for k in ('::operator[](', '::data()', '::size()', '::empty()', '::front()', '::back()')))
+        ex.ext[d] = raw_event_call(ex, d, memo)
+    for nm in ('__cxa_begin_catch', '__cxa_end_catch', '__clang_call_terminate', '_ZdlPv'): ex.ext[nm] = ext_noop
+    ex.ext['_Znwm'] = ext_new; ex.ext['_Znam'] = ext_new
+    for k, v in (overrides or {}).items():
+        for d in list(mod.decls) + list(mod.funcs):
+            if k in dm.get(d, d) or k == d: ex.ext[d] = v
+    def indirect(st_, fr_, ins, fp, a):
+        st_.events.append(('vcall', show(fp), list(a))); return None if isinstance(ins['ty'], VoidTy) else ex.fresh(st_, ins['ty'], 'vret')
+    ex.indirect_hook = indirect
+    st = State(); ex.call(st, fname, args)
+    paths = []; work = [st]; t0 = time.time()
+    while work:
+        s = work.pop()
+        if len(paths) > max_paths or time.time() - t0 > 600: raise Unsupported('path/time budget exceeded in %s' % fname)
+        try: ex.run_path(s, work); s.kind = 'done'
+        except PathEnd as e: s.kind = 'ended'; s.why = str(e)
+        except (Unsupported, MemError) as e: s.kind = 'error'; s.why = str(e)
+        paths.append(s)
+    return ex, paths, dm
